@@ -390,6 +390,69 @@ func runC14(c *Ctx) {
 			c.Floor("C14.reset-excl/calls", n, 1)
 		}
 	}
+	c.Borrow("C04", map[string]string{"C04.reg-before-walk": "C14.attach-order"}, "the deletes a Reset/Remove announces reach a subscriber only through its registration: a stream that walks the cache before it registers is sent the leaves and never the announcement that removed them (and a removed target's stream is never ended)")
+	// ---- the all-targets walk excludes Remove: a removed target is not reported after its whole-target delete
+	c.Rule("C14.walk-excl", "Cache.Query for all targets (target == \"*\"): every per-target Tree.Query runs while Cache.mu is held, so a Remove (write lock) cannot complete - forget the target and announce its whole-target delete - in the middle of the walk and be followed by leaves of the removed target")
+	{
+		cq := P.Method("cache", "Cache", "Query")
+		fMu := P.Field("cache", "Cache", "mu")
+		if cq == nil || fMu == nil || len(cq.Params) < 2 {
+			c.Unresolved("C14.walk-excl", "cache.(*Cache).Query / Cache.mu")
+		} else {
+			c.Analysed(fnName(cq))
+			tP := ssa.Value(param(cq, 1))
+			cls := func(e *PPA, st *State, rv RV) string {
+				r := e.Resolve(st, rv)
+				b, ok := r.V.(*ssa.BinOp)
+				if !ok || (b.Op != token.EQL && b.Op != token.NEQ) {
+					return ""
+				}
+				for _, pr := range [][2]ssa.Value{{b.X, b.Y}, {b.Y, b.X}} {
+					if e.Resolve(st, RV{r.F, pr[0]}).V != tP {
+						continue
+					}
+					if s, ok := constString(pr[1]); ok {
+						name := "OTHER"
+						switch s {
+						case "*":
+							name = "ALL"
+						case "":
+							name = "NONE"
+						}
+						if b.Op == token.NEQ {
+							return "!" + name
+						}
+						return name
+					}
+				}
+				return ""
+			}
+			at := &Atoms{Class: cls, Bool: map[string]bool{"ALL": true, "NONE": false}}
+			isTQ := lbl("call:(*ctree.Tree).Query")
+			e := &PPA{Cond: at.Cond, MaxVisits: 3, Watch: func(ev *Ev) bool { return isTQ(ev) || (isLockOp(ev) && ev.Field == fMu) }}
+			e.Run(cq)
+			c.Paths += len(e.Paths)
+			n := 0
+			for i := range e.Paths {
+				p := &e.Paths[i]
+				held := 0
+				for j := range p.Trace {
+					ev := &p.Trace[j]
+					if isLockOp(ev) {
+						if lockOps[ev.Label][1] == '+' {
+							held++
+						} else {
+							held--
+						}
+						continue
+					}
+					n++
+					c.Check(held > 0, "C14.walk-excl", fnName(cq), "per-target query of the all-targets walk runs under Cache.mu", P.Pos(posOf(ev.In)), "path: "+p.String())
+				}
+			}
+			c.Floor("C14.walk-excl/queries", n, 1)
+		}
+	}
 	// ---- meta init
 	c.Rule("C14.meta-init", "metadata.Clear ranges over the bool, int and string registries and calls ResetEntry for every key; ResetEntry has an arm for each kind and an error for unknown entries")
 	{
